@@ -205,12 +205,7 @@ func runC05(r *Run) {
 					// the same decode into a zero value, compared with the model
 					zr := implRead(c, g, bs)
 					id := -1
-					if bt.Kind() == reflect.Uint8 && pos.name == "slice-elem" {
-						// array<null> into []byte: the model keeps byte slices apart from other slices; oracle only
-						r.Count("unmodelled/null-items-into-byte-slice")
-					} else {
-						id = r.Add(cApp("KRead", coqSchema(s), g.Coq(), cBytes(bs), zr.coq()), d2, fmt.Sprintf("read/%s/%s/%s/%v", sc.name, pos.t, pos.name, out))
-					}
+					id = r.Add(cApp("KRead", coqSchema(s), g.Coq(), cBytes(bs), zr.coq()), d2, fmt.Sprintf("read/%s/%s/%s/%v", sc.name, pos.t, pos.name, out))
 					intact := true
 					chk := func(f reflect.Value) {
 						b := unsafe.Slice((*byte)(f.Addr().UnsafePointer()), f.Type().Size())
